@@ -126,8 +126,9 @@ def write_evidence(prop, tier, seed, level, out, wall, n_viol, n_known):
         "wall_s": round(float(wall), 2),
         "violations": int(n_viol),
     }
-    os.makedirs(os.path.join(VERIF, "evidence"), exist_ok=True)
-    path = os.path.join(VERIF, "evidence", prop + ".json")
+    evdir = os.environ.get("VERIF_EVIDENCE_DIR") or os.path.join(VERIF, "evidence")
+    os.makedirs(evdir, exist_ok=True)
+    path = os.path.join(evdir, prop + ".json")
     try:
         import jsonschema
         with open("/root/.vp/EVIDENCE.schema.json") as f:
@@ -155,7 +156,7 @@ def load_findings():
 
 
 def write_replay(prop, v):
-    d = os.path.join(VERIF, "replays", prop)
+    d = os.path.join(os.environ.get("VERIF_REPLAY_DIR") or os.path.join(VERIF, "replays"), prop)
     os.makedirs(d, exist_ok=True)
     blob = json.dumps({"property": prop, **v.to_json()}, indent=1, sort_keys=True)
     sha = hashlib.sha256(blob.encode()).hexdigest()[:12]
